@@ -349,6 +349,12 @@ def interp_entry_points(case):
         yield "UnitQuaternion.interp", (lambda: q0.interp(s, dest=q1)) if ws else (lambda: q1.interp(s))
         yield "UnitQuaternion.interp(shortest)", (lambda: q0.interp(s, dest=q1, shortest=True)) if ws \
             else (lambda: q1.interp(s, shortest=True))
+        # the same end rotation held as the other quaternion of the double cover: for small d the two quaternions are
+        # nearly (not exactly) opposite and the long arc is interpolated
+        n1 = UnitQuaternion(-q1.vec)
+        yield "UnitQuaternion.interp(dest=-q)", (lambda: q0.interp(s, dest=n1)) if ws else (lambda: n1.interp(s))
+        yield "UnitQuaternion.interp(dest=-q,shortest)", (lambda: q0.interp(s, dest=n1, shortest=True)) if ws \
+            else (lambda: n1.interp(s, shortest=True))
     elif e == "trinterp(R)":
         yield "base.trinterp(R)", lambda: base.trinterp(R0 if ws else None, R1, s)
     elif e == "trinterp(T)":
@@ -362,6 +368,7 @@ def interp_entry_points(case):
         yield "base.slerp", lambda: UnitQuaternion(base.slerp(qa, qb, s), norm=False, check=False)
         yield "base.slerp(shortest)", lambda: UnitQuaternion(base.slerp(qa, qb, s, shortest=True), norm=False,
                                                               check=False)
+        yield "base.slerp(q0,-q1)", lambda: UnitQuaternion(base.slerp(qa, -qb, s), norm=False, check=False)
 
 
 def norm_entry_points(case):
